@@ -610,14 +610,32 @@ def it_find_map(ev, cx, args):
 
 
 def _extremum(name):
+    """`max()`: keep the previous best unless the new element is not smaller (the last of equal maxima wins);
+    `min()`: keep it unless the new element is smaller (the first of equal minima wins)."""
     def m(ev, cx, args):
         recv = args[0]
         lid = (cx.fid, cx.bb, name)
         acc = (lid, "acc")
 
         def body(x, env, path, L):
-            env[acc] = some(("bin", name.capitalize(), ("opt_or", env[acc], x), x))
-            return [("continue", env, path, None)]
+            out = []
+            prev = env[acc]
+            sp = ev.split_variant(prev, OPTION, path, (cx.fid, (cx.bb, "t")))
+            envs = [env] + [dict(env) for _ in sp[1:]]
+            for i, (n, p) in enumerate(sp):
+                if n == "None":
+                    envs[i][acc] = some(x)
+                    out.append(("continue", envs[i], p, None))
+                    continue
+                pv = ev.payload(prev, OPTION, "Some")
+                cond = ("bin", "Gt", pv, x) if name == "max" else ("bin", "Gt", pv, x)
+                sb = ev.split_bool(cond, p, (cx.fid, (cx.bb, "c")))
+                e2 = [envs[i]] + [dict(envs[i]) for _ in sb[1:]]
+                for j_, (b, p2) in enumerate(sb):
+                    keep = (b == 1) if name == "max" else (b == 0)
+                    e2[j_][acc] = some(pv) if keep else some(x)
+                    out.append(("continue", e2[j_], p2, None))
+            return out
 
         return model_loop(ev, cx, name, recv, body, lambda env, L: env[acc], init=NONE)
     return m
